@@ -7,7 +7,7 @@ import FinProtoc.Conforms
 on every program, so the two cannot drift apart silently.
 -/
 namespace FinProtoc.Explain
-open FinProtoc FinProtoc.IR FinProtoc.Conforms
+open FinProtoc FinProtoc.IR FinProtoc.Conforms FinProtoc.Wire
 
 structure Reason where
   side : String       -- enc | dec
